@@ -30,9 +30,11 @@ class Primitive(Trimesh):
     Mesh is generated lazily when vertices or faces are requested.
     """
 
-    # ignore superclass copy directives
-    __copy__ = None
+    # ignore superclass copy directives which pass `include_cache`
     __deepcopy__ = None
+
+    def __copy__(self, *args):
+        return self.copy()
 
     def __init__(self):
         # run the Trimesh constructor with no arguments
